@@ -177,7 +177,7 @@ func bracketedHostEcho(m OriginModel, origin string) bool {
 	if i < 0 {
 		return false
 	}
-	j := strings.IndexByte(origin, ']')
+	j := strings.LastIndexByte(origin, ']')
 	if j < i+4 {
 		return false
 	}
@@ -189,7 +189,24 @@ func bracketedHostEcho(m OriginModel, origin string) bool {
 	if _, ok := SplitOrigin(origin); ok {
 		return false // a genuine IPv6 origin is not this finding
 	}
-	return m.DenotedBy(origin[:i+3] + inner + rest)
+	// What is between the brackets is not validated at all and is matched as if it were the host: it equals the host
+	// of a listed pattern, or it ends with "." + the host of a listed wildcard pattern (whatever bytes come before).
+	// Scheme and port are judged as usual, through a well-formed stand-in that relates to the pattern the same way.
+	for _, p := range m.Pats {
+		standIn := ""
+		switch {
+		case !p.Wild && inner == p.Host:
+			standIn = p.Host
+		case p.Wild && len(inner) > len(p.Host)+1 && strings.HasSuffix(inner, "."+p.Host):
+			standIn = "x." + p.Host
+		default:
+			continue
+		}
+		if o, ok := SplitOrigin(origin[:i+3] + standIn + rest); ok && Denotes(p, o) {
+			return true
+		}
+	}
+	return false
 }
 
 func eq1(vs []string, want string) bool { return len(vs) == 1 && vs[0] == want }
